@@ -276,7 +276,7 @@ func checkSocksDeadlines(p *Prog, r *Report, scan *ssa.Function) {
 					var dl *Event
 					for _, e := range s.Events {
 						if e.Kind == EvCall && e.Ord < s.ord[c] {
-							if m := IfaceMethod(e.Call); m != nil && m.Name() == "Set"+op+"Deadline" {
+							if m := IfaceMethod(e.Call); m != nil && (m.Name() == "Set"+op+"Deadline" || m.Name() == "SetDeadline") {
 								dl = e
 							}
 						}
